@@ -365,6 +365,9 @@ def gen_case(rng, tier, op=None, lens=None, dtype=None, recv=None):
                 en = [-rng.randint(1, max(1, l + 1)) for l in lens_]
             elif mode == "beyond":
                 en = [l + rng.randint(0, 3) for l in lens_]
+                if rng.random() < 0.3:
+                    # far beyond every row, also beyond 32 bits (an "open" end written as a huge number): the window ends with the row
+                    en = [rng.choice([2 ** 31 - 1, 2 ** 31, 2 ** 31 - 1 - sum(lens_[:i]), 2 ** 40, 2 ** 62, l + 1]) for i, l in enumerate(lens_)]
             else:
                 en = None
             c["starts"] = st if rng.random() < 0.8 else None
